@@ -2093,6 +2093,9 @@ fn find_required_sections<'data, A: Arch>(
     });
 
     let mut errors: Vec<Error> = take(resources.errors.lock().unwrap().as_mut());
+    // Groups report errors concurrently, so the order of `errors` depends on scheduling. Sort so
+    // that the error we report doesn't.
+    errors.sort_by_cached_key(|error| std::cmp::Reverse(error.to_string()));
     // TODO: Figure out good way to report more than one error.
     if let Some(error) = errors.pop() {
         #[cfg(wild_verif)]
